@@ -12,8 +12,9 @@ VARIABLE hist
 
 P(S) == IF S = {} THEN {} ELSE {RandomElement(S)}
 
-Q(n) == [gq |-> Cardinality(tr'[n].gq), oq |-> QLen(tr'[n].oq), pend |-> tr'[n].hand.pend,
-         dropped |-> tr'[n].dropped, sent |-> tr'[n].sent, failed |-> tr'[n].failed]
+Q(n) == [gq |-> Cardinality(tr'[n].gq),
+         ov |-> [k \in Keys |-> [oq |-> QLen(tr'[n].ov[k].oq), pend |-> tr'[n].ov[k].hand.pend,
+                                dropped |-> tr'[n].ov[k].dropped, sent |-> tr'[n].ov[k].sent, failed |-> tr'[n].ov[k].failed]]]
 Obs == [e |-> last', up |-> up', st |-> st', q |-> [n \in Nodes |-> Q(n)],
         gap |-> (last'.op = "injectfull" /\ last'.blocked /\ F5Gap(last'.fs))]
 Obs0 == [e |-> [op |-> "init", nodes |-> Nodes, initup |-> InitUp,
@@ -21,27 +22,29 @@ Obs0 == [e |-> [op |-> "init", nodes |-> Nodes, initup |-> InitUp,
                 foreign |-> Foreign, cap |-> OversizeCap, txlimit |-> TxLimit,
                 glimit |-> GLimit, goverhead |-> GOverhead, maxpacket |-> MaxPacket],
          up |-> InitUp, st |-> [n \in Nodes |-> [k \in Keys |-> {}]],
-         q |-> [n \in Nodes |-> [gq |-> 0, oq |-> 0, pend |-> {}, dropped |-> 0, sent |-> 0, failed |-> 0]],
+         q |-> [n \in Nodes |-> [gq |-> 0, ov |-> [k \in Keys |-> [oq |-> 0, pend |-> {}, dropped |-> 0, sent |-> 0, failed |-> 0]]]],
          gap |-> FALSE]
 
 GenInit == Init /\ hist = <<Obs0>>
 
 \* parts of an injected full state: bad ones, foreign ones, and parts seen before
 PartsNow == PartU \cup {GoodPart(u) : u \in Held(st)}
-FullOf(a, b, c) == [kind |-> "full", parts |-> IF c.kind # "none" THEN <<a, b, c>> ELSE IF b.kind # "none" THEN <<a, b>> ELSE <<a>>]
+NotNone(x) == x.kind # "none"
+FullOf(a, b, c) == [kind |-> "full", parts |-> SelectSeq(<<a, b, c>>, NotNone)]
 None == Bad("none", "")
 
 \* one candidate per kind of step, so that the kinds are equally likely in simulation
 GenStep ==
   \/ \E n \in P(up), u \in P({x \in Updates \ Foreign : born[x].r = 0}) : Broadcast(n, u)
   \/ (used.burst < MaxBurst /\
-        \E n \in P({x \in up : tr[x].hand.pend # {}}) :
-          \E u \in P({x \in HeldBy(n) : Oversized(PartLen(DLen[x]))}), k \in P(BurstSizes) : Burst(n, u, k))
+        \E n \in P({x \in up : Busy(tr[x])}) :
+          \E u \in P({x \in HeldBy(n) : Oversized(PartLen(DLen[x])) /\ tr[n].ov[UKey[x]].hand.pend # {}}), k \in P(BurstSizes) : Burst(n, u, k))
   \/ (Cardinality(net) < MaxNet /\ \E n \in P({x \in up : tr[x].gq # {}}) : \E p \in P(view[n] \ served[n]) : Gossip(n, p))
   \/ \E pk \in P(net) : Deliver(pk, FALSE)
   \/ (used.dup < MaxDup /\ \E pk \in P(net) : Deliver(pk, TRUE))
   \/ \E pk \in P(net) : (IF pk.to \in up THEN used.lose < MaxLose ELSE TRUE) /\ Lose(pk)
-  \/ \E n \in P({x \in up : tr[x].hand.pend # {}}) : \E p \in P(tr[n].hand.pend) : SendReliable(n, p)
+  \/ \E n \in P({x \in up : Busy(tr[x])}) : \E k \in P({x \in Keys : tr[n].ov[x].hand.pend # {}}) :
+        \E p \in P(tr[n].ov[k].hand.pend) : SendReliable(n, k, p)
   \/ (PPOn /\ \E a \in P(up) : \E b \in P({x \in up \ {a} : {a, x} \notin ppdone}) : PushPull(a, b))
   \/ (PPOn /\ EndSweep)
   \/ (used.crash < MaxCrash /\ \E n \in P(up) : Crash(n))
